@@ -78,6 +78,38 @@ fn fresh(router: &v::VRouter, c: &Conc) -> Vec<u8> {
     })
 }
 
+/// the same over a real socket: the request alone on a fresh connection served by the real Session::manage (what the session itself adds
+/// to a response, e.g. a `Connection` header, is part of "the response it would receive as the only request on a fresh connection")
+fn fresh_tcp(router: &v::VRouter, c: &Conc) -> Vec<u8> {
+    use tokio::io::{AsyncReadExt, AsyncWriteExt};
+    let r2 = router.clone();
+    let bytes = c.bytes.clone();
+    util::block_on(async move {
+        let l = tokio::net::TcpListener::bind("127.0.0.1:0").await.unwrap();
+        let addr = l.local_addr().unwrap();
+        let (c, sv) = tokio::join!(tokio::net::TcpStream::connect(addr), l.accept());
+        let (mut c, (sv, peer)) = (c.unwrap(), sv.unwrap());
+        c.set_nodelay(true).ok();
+        let server = tokio::spawn(async move { v::session(&r2, sv, peer.ip()).await });
+        let mut out: Vec<u8> = vec![]; let mut buf = vec![0u8; 65536];
+        if c.write_all(&bytes).await.is_err() { return b"<write failed>".to_vec() }
+        let _ = c.flush().await;
+        let deadline = tokio::time::Instant::now() + std::time::Duration::from_millis(15000);
+        let first = loop {
+            let p = util::parse_response(&out, false);
+            if p.error.is_empty() && p.consumed > 0 { break Some(p.consumed) }
+            match tokio::time::timeout_at(deadline, c.read(&mut buf)).await {
+                Ok(Ok(0)) | Ok(Err(_)) | Err(_) => break None,
+                Ok(Ok(m)) => out.extend_from_slice(&buf[..m]),
+            }
+        };
+        let _ = c.shutdown().await;
+        loop { match tokio::time::timeout(std::time::Duration::from_millis(15000), c.read(&mut buf)).await { Ok(Ok(0)) | Ok(Err(_)) | Err(_) => break, Ok(Ok(_)) => {} } }
+        let _ = tokio::time::timeout(std::time::Duration::from_millis(5000), server).await;
+        match first { Some(n) => strip_date(&out[..n]), None => b"<closed>".to_vec() }
+    })
+}
+
 /// byte segments from the cell-level cuts; cuts inside a head or body are jittered by a few bytes (never across a part boundary)
 pub fn segments(stream: &[u8], cuts: &[Value], boundaries: &[usize], hb: &[usize], seed: u64) -> Vec<Vec<u8>> {
     let mut pos: Vec<usize> = cuts.iter().enumerate().map(|(n, c)| {
@@ -200,6 +232,7 @@ pub fn run(scn: &Value) -> Value {
     let router = router();
     let concs: Vec<Conc> = reqs.iter().enumerate().map(|(k, r)| concretise(k + 1, r, seed)).collect();
     let fresh: Vec<Vec<u8>> = concs.iter().map(|c| fresh(&router, c)).collect();
+    let fresh_sock: Vec<Vec<u8>> = concs.iter().map(|c| fresh_tcp(&router, c)).collect();
     let mut stream = vec![]; let mut boundaries = vec![]; let mut ends = vec![]; let mut hb = vec![];
     for (k, c) in concs.iter().enumerate() {
         let he = stream.len() + i(&reqs[k]["h"]) as usize * CELL;
@@ -212,7 +245,7 @@ pub fn run(scn: &Value) -> Value {
     // tcp: wait for a response after a segment that ends exactly at the end of a request
     let mut acc = 0; let wait_after: Vec<bool> = segs.iter().map(|sg| { acc += sg.len(); ends.contains(&acc) }).collect();
     let (out2, end2, evs) = run_tcp(&router, segs.clone(), wait_after);
-    let tcp = json!({"resp": classify(&out2, &concs, &fresh), "end": end2, "unread": false});
+    let tcp = json!({"resp": classify(&out2, &concs, &fresh_sock), "end": end2, "unread": false});
     json!({"kind": "conn", "mem": mem, "tcp": tcp, "events": evs, "nsegs": segs.len() as i64})
 }
 
